@@ -319,10 +319,20 @@ func mayAuth(c *Conn) bool {
 //@   panics assumed-unreachable imapserver.New refuses a configuration without IMAP4rev1/IMAP4rev2, so at least one of them is available
 //@   ensures c.state == old(c.state)
 
+// isStartTLSConn: the connection handed to the TLS layer replays the drained
+// plaintext first (startTLSConn reads through its MultiReader).
+//
+//@ pure
+func isStartTLSConn(conn net.Conn) bool {
+	_, ok := conn.(startTLSConn)
+	return ok
+}
+
 //@ func (c *Conn) handleStartTLS(tag string, dec *imapwire.Decoder) (err error)
 //@   props C17:post,pre@call,callsite
 //@   callsite tls.Server requires __called("writeStatusResp") && !__failed("writeStatusResp") && __called("CopyN") && c.canStartTLS()
-//@   callsite io.MultiReader(readers []io.Reader) requires len(readers) == 2 && isBytesBuffer(readers[0])
+//@   callsite tls.Server(conn net.Conn, config *tls.Config) requires __result("Buffer.Len") > 0 ==> __called("MultiReader") && isStartTLSConn(conn)
+//@   callsite io.MultiReader(readers []io.Reader) requires len(readers) == 2 && isBytesBuffer(readers[0]) && !__called("Server")
 //@   callsite Reader.Reset requires __called("Server")
 //@   callsite Writer.Reset requires __called("Server")
 //@   ensures[C17] err == nil ==> isTLS(c.conn) && __called("Reader.Reset") && __called("Writer.Reset")
